@@ -187,6 +187,11 @@ def compile_probe(items, tag):
     """items: list of (index, source with derive) -> dict index -> 'ok' | 'fail' | 'fail_isoption'"""
     if not items:
         return {}
+    if len(items) > 2500:          # one crate per 2500 items: rustc's memory grows with the size of the crate
+        res = {}
+        for k in range(0, len(items), 2500):
+            res.update(compile_probe(items[k:k + 2500], "%s%d" % (tag, k // 2500)))
+        return res
     d = os.path.join(vlib.BUILD, "probe-" + tag)
     shutil.rmtree(d, ignore_errors=True)
     os.makedirs(os.path.join(d, "src"))
